@@ -48,6 +48,54 @@ def fmt_of(m):
     return ' '.join(A.text(a) for a in m.get('args') or [])
 
 
+def always_writes(stmts, needle):
+    """does every normal path through this statement list write a literal containing `needle`?"""
+    if isinstance(stmts, dict):
+        stmts = [stmts]
+    for st in stmts or []:
+        if _always(st, needle):
+            return True
+    return False
+
+
+def _always(n, needle):
+    if not isinstance(n, dict):
+        return False
+    k = n.get('k')
+    if k in ('tail', 'try', 'expr', 'semi', 'paren', 'return', 'stmt'):
+        return _always(n.get('expr'), needle)
+    if k == 'let':
+        return _always(n.get('init'), needle)
+    if k == 'macro' and n.get('name') in ('write', 'writeln'):
+        return needle in (n.get('fmt') or '')
+    if k == 'mcall' and n.get('method') in ('write_str', 'write_char'):
+        return any(needle in A.text(a) for a in n.get('args') or []) or _always(n.get('recv'), needle)
+    if k == 'mcall':
+        return _always(n.get('recv'), needle)
+    if k == 'block':
+        return always_writes(n.get('stmts') or n.get('body'), needle)
+    if k == 'if':
+        return n.get('else') is not None and always_writes(n.get('then'), needle) and always_writes(n.get('else'), needle)
+    if k == 'match':
+        arms = n.get('arms') or []
+        return bool(arms) and all(always_writes(a.get('body'), needle) for a in arms)
+    return False
+
+
+def check_comment_display(rep, t, rule='R14.9'):
+    """every comment renders its `#` marker, whatever its text (an empty comment is still a line of the text)"""
+    F = IDL + '/comment.rs'
+    found = False
+    for f, n, impl in A.all_fns(t, F):
+        if n['name'] == 'fmt' and impl and 'Display' in (impl.get('trait') or '') and (impl.get('self_ty') or '').startswith('Comment'):
+            found = True
+            rep.check(always_writes(n['body'], '#'), rule, 'Comment|marker-on-every-path', '%s:%s' % (f, n.get('line')),
+                      'every path through the Display of Comment writes the `#` marker',
+                      'the Display of Comment has a path that writes no `#` (e.g. for an empty text): the comment disappears from the rendered text, so parsing it back yields fewer comments')
+    if not found:
+        rep.bad(rule, 'Comment|anchor', F, 'Display impl of Comment not found')
+
+
 def check_comment_confined(rep, crate, rule='R14.7'):
     """a line comment is confined to its line (shared with C13)"""
     pb = [b for b in crate.bodies if b.path.startswith('idl::parse::') and not b.in_test and b.kind == 'Fn']
@@ -78,6 +126,8 @@ def check(fx, rep, tier):
     rep.rule('R14.5', 'the element parser behind `[]` / `[string]` is the full type parser used for field types')
     rep.rule('R14.7', 'a line comment is confined to its line: comment_def calls no newline-consuming parser before its text and scans up to the newline')
     rep.rule('R14.6', 'comments are recognised only in ws / comment_def: no other function tests for `#` and advances the input')
+    rep.rule('R14.9', 'the Display of Comment writes the `#` marker on every path')
+    rep.rule('R14.10', 'what Display writes before members and inside nested types parses back: no byte look-ahead in phrase parsers, member names are scanned only after a comment-aware step (rules R13.9 / R13.10 of C13)')
     rep.rule('R14.8', 'rendered names parse back: the name scanners accept exactly the names of the grammar (rule R13.7 of C13: abstract interpretation of the scanners against the lexical rules), so every legal name Display writes is read back whole')
     t = fx.tpl
     disp = display_impls(t)
@@ -268,6 +318,11 @@ def check(fx, rep, tier):
               'its member and is lost when the description is parsed back' % sorted(hashers))
     # ---- R14.7 a line comment is confined to its line
     check_comment_confined(rep, crate, 'R14.7')
+    # ---- R14.9 / R14.10
+    check_comment_display(rep, t)
+    import c13 as _c13
+    _c13.check_no_byte_search(rep, crate, 'full', rule='R14.10')
+    _c13.check_member_start_after_comments(rep, crate, 'full', rule='R14.10')
     # ---- R14.8 legal names parse back: the name scanners accept every name of the grammar (imported from C13, R13.7)
     import c13
     c13.check_scanners(rep, crate, 'full', rule='R14.8', prefix='')
